@@ -4,6 +4,7 @@ import (
 	"errors"
 	"fmt"
 	"net"
+	"strings"
 	"time"
 
 	"github.com/pion/stun/v3"
@@ -191,6 +192,13 @@ func c15Script(c *core.Ctx, o rigOpts, variant int) {
 }
 
 func c15(c *core.Ctx) {
+	if !strings.HasPrefix(c.Config, "race") {
+		// in a process that has done nothing else yet (the count is process-wide)
+		c.SectionFirst("closed-clients-leave-nothing", 2, func(i int64, _ *gen.Rand) {
+			targetedClosedClientsLeaveNothing(c, int(i))
+			c.Distinct(uint64(i) | 31<<50)
+		})
+	}
 	opts := c15Options()
 	if c.Config != "race" {
 		c.Section("option-product", int64(len(opts)*6), func(i int64, _ *gen.Rand) {
